@@ -70,7 +70,7 @@ const (
 	//   0123456789abcdef0123456789abcdef
 	colonMap = "" +
 		".........ab..a.................." + // 0x00
-		"a.........................q....." + // 0x20
+		"a..............c..........q....." + // 0x20
 		"................................" + // 0x40
 		"................................" + // 0x60
 		"................................" + // 0x80
@@ -210,7 +210,7 @@ const (
 	//   0123456789abcdef0123456789abcdef
 	spaceMap = "" +
 		".........ab..a.................." + // 0x00
-		"a...........a..................." + // 0x20
+		"a...........a..c................" + // 0x20
 		"................................" + // 0x40
 		"................................" + // 0x60
 		"................................" + // 0x80
